@@ -20,6 +20,10 @@ def run(ctx) -> None:
     g = tlc.run("GenC17", "INIT Init\nNEXT Next\nCHECK_DEADLOCK FALSE\nINVARIANT Law\nINVARIANT Emit\n", tag="c17.gen",
                 env={"MAXPRE": mp}, heap="3g")
     ctx.add_tlc(g, f"GenC17: LocationLaw + cases, preambles <= {mp}")
+    # the line/column law on the character-level scanner model: every token is stamped with the line and
+    # column of its first character, for every input of <= 4/5 characters over two alphabets
+    from harness import scanmc
+    scanmc.design(ctx, 4 if ctx.quick else 5, families=("operands", "misc"))
     vecs = [v for v in g.printed if isinstance(v, dict) and "c" in v]
     if len(vecs) < 500:
         raise tlc.TLCFailure("GenC17 produced too few cases")
